@@ -196,7 +196,7 @@ def toks_module(m):
 
 
 WORDY = re.compile(r"[A-Za-z0-9_$'\\]")
-COMMENT_WORDS = ["x", "tie_0", "tie_1", "tie_x", "tie_0_0", "not_a", "and_a_b", "and_a_b_0", "xor_a_b", "wire", "TODO", "g_0",
+COMMENT_WORDS = ["x", "endmodule", "endmodule", "module", "tie_0", "tie_1", "tie_x", "tie_0_0", "not_a", "and_a_b", "and_a_b_0", "xor_a_b", "wire", "TODO", "g_0",
                  "mux_o_a_b_c", "a&b", "1'b0", "(", ";", "*", "/", "or_a_b", "not_b", "\\esc[1]"]
 
 
